@@ -286,7 +286,7 @@ MUTANTS["C17"] = [
 
 MUTANTS["C18"] = [
     M("golomb-m", "compactfilter.py", "GOLOMB_M = int(round(1.497137 * 2**GOLOMB_P))", "GOLOMB_M = int(round(1.497137 * 2**GOLOMB_P)) + 1", ["C18.1"], "M altered in compactfilter only"),
-    M("f-dedup", "compactfilter.py", "        self.f = len(hashes) * GOLOMB_M\n        self.hashes = set(hashes)", "        self.hashes = set(hashes)\n        self.f = len(self.hashes) * GOLOMB_M", ["C18.2"], "range from the de-duplicated set"),
+    M("f-dedup", "compactfilter.py", "        self.f = len(hashes) * GOLOMB_M\n", "        self.f = len(set(hashes)) * GOLOMB_M\n", ["C18.2"], "range from the de-duplicated set"),
     M("sip-rot", "siphash.py", "    o = (((j << 21) | (j >> 43)) ^ k) & 0xFFFFFFFFFFFFFFFF", "    o = (((j << 22) | (j >> 42)) ^ k) & 0xFFFFFFFFFFFFFFFF", ["C18.3"], "rotation 22 instead of 21"),
     M("sip-mask", "siphash.py", "    e = (a + b) & 0xFFFFFFFFFFFFFFFF", "    e = a + b", ["C18.3"], "sum not reduced to 64 bits before rotation"),
     M("murmur-tail", "helper.py", "    if val in [2, 3]:\n        k1 |= (data[roundedEnd + 1] & 0xFF) << 8", "    if val in [2]:\n        k1 |= (data[roundedEnd + 1] & 0xFF) << 8", ["C18.4"], "tail of length 3 skips byte 1"),
